@@ -174,21 +174,39 @@ def _region_calls(items, start_pred, end_pred):
     return out
 
 
+def _lock_wrappers(tus):
+    """(lockers, unlockers): functions that do nothing but take / release a mutex (possibly after setting a flag) - a call of
+    such a wrapper is the lock / unlock event it wraps"""
+    lockers, unlockers = {'pthread_mutex_lock'}, {'pthread_mutex_unlock'}
+    for tu in tus:
+        for name, f in tu.funcs.items():
+            calls = [callee_name(e) for e in walk(cfront.body(f)) if e.get('kind') == 'CallExpr']
+            if calls == ['pthread_mutex_lock']:
+                lockers.add(name)
+            elif calls == ['pthread_mutex_unlock']:
+                unlockers.add(name)
+    return lockers, unlockers
+
+
 def rule_lock_discipline(ctx):
     n = 0
     samples = []
+    LOCK, UNLOCK = _lock_wrappers([cfront.load_tu('rebound.c'), cfront.load_tu('server.c')])
     # integrate loop: lock ... heartbeat, step, heartbeat ... unlock, no jump out of the region
     tu = cfront.load_tu('rebound.c')
     fn = tu.func('reb_simulation_integrate_raw')
-    loop = [s for s in cfront.body(fn).get('inner', []) if s.get('kind') == 'WhileStmt'][0]
-    body = loop['inner'][1].get('inner', [])
+    from .. import normal
+    _li, _cond, body = normal.main_loop(cfront.body(fn).get('inner', []), 'reb_simulation_step')
+    anchor(_li is not None, 'the loop of reb_simulation_integrate_raw that calls reb_simulation_step')
     seq = []
     for st in body:
         for e in walk(st):
             if e.get('kind') == 'CallExpr':
                 nm = callee_name(e)
-                if nm in ('pthread_mutex_lock', 'pthread_mutex_unlock') and 'server_data' in render(e):
-                    seq.append(nm)
+                if nm in LOCK and ('mutex' in render(e) or nm != 'pthread_mutex_lock'):
+                    seq.append('pthread_mutex_lock')
+                elif nm in UNLOCK and ('mutex' in render(e) or nm != 'pthread_mutex_unlock'):
+                    seq.append('pthread_mutex_unlock')
                 elif nm in ('reb_simulationarchive_heartbeat', 'reb_simulation_step', 'reb_run_heartbeat'):
                     seq.append(nm)
             if e.get('kind') in ('BreakStmt', 'ContinueStmt', 'ReturnStmt', 'GotoStmt'):
@@ -213,9 +231,9 @@ def rule_lock_discipline(ctx):
         for e in walk(thenb):
             if e.get('kind') == 'CallExpr':
                 nm = callee_name(e)
-                if nm == 'pthread_mutex_lock' and 'data.mutex' in render(e):
+                if nm in LOCK and ('mutex' in render(e) or nm != 'pthread_mutex_lock'):
                     events.append(('lock', line_of(e)))
-                elif nm == 'pthread_mutex_unlock' and 'data.mutex' in render(e):
+                elif nm in UNLOCK and ('mutex' in render(e) or nm != 'pthread_mutex_unlock'):
                     events.append(('unlock', line_of(e)))
                 elif nm is None and 'key_callback' in render(e['inner'][0]):
                     events.append(('callback', line_of(e)))
